@@ -486,6 +486,10 @@ func runCeremony(t *testing.T, tr sink, sid int, sched []drv.Step) bool {
 
 	for _, st := range sched[1:] {
 		switch drv.Str(st["ev"]) {
+		case "Pause": // a slow peer: real time passes (mode cb runs on the wall clock); nothing is logged, time is not in the contract
+			if cb != nil {
+				time.Sleep(time.Duration(drv.Num(st["ms"])) * time.Millisecond)
+			}
 		case "Fault":
 			if cb == nil {
 				t.Fatalf("Fault step outside mode cb: %v", st)
